@@ -1,5 +1,33 @@
 ---------------------------- MODULE TypeEvalEmit ----------------------------
-(* Emission wrapper: prints every completed case as one JSON line so that the harness can replay it. *)
+(* Emission wrapper: prints completed cases as JSON lines so that the harness can replay them.      *)
+(* EmitMod = 1: every case.  EmitMod > 1: every probe case and the cases whose BODY has structural  *)
+(* hash EmitRes modulo EmitMod (whole evaluator functions are sampled, with all their calls; the    *)
+(* harness derives EmitRes from VERIF_SEED).                                                        *)
 EXTENDS TypeEval, Json
-EmitDone == stage = "done" => PrintT(ToJson(case))
+CONSTANTS EmitMod, EmitRes
+
+KCode(k) == CASE k = "if" -> 1 [] k = "elif" -> 2 [] k = "else" -> 3 [] k = "ret" -> 5 [] k = "err" -> 7 [] k = "pass" -> 11
+SCode(s) == CASE s \in {"a", "prov", "eq", "ge", "L1", "int"} -> 1
+              [] s \in {"b", "pos", "ne", "lt", "L2", "str"} -> 2
+              [] s \in {"kw", "is", "Lx", "None"} -> 3
+              [] OTHER -> 4
+RECURSIVE CondCode(_), CondCodeFrom(_, _)
+CondCode(c) ==
+    CASE c.k = "none" -> 0
+      [] c.k = "kind" -> 13 + 3 * SCode(c.f) + SCode(c.v)
+      [] c.k = "oft" -> 17 + 5 * Len(c.tt) + 7 * SCode(c.tt[1]) + (IF c.x THEN 1 ELSE 0) + 2 * SCode(c.v)
+      [] c.k = "cmp" -> 19 + 3 * SCode(c.op) + 5 * SCode(c.lit) + SCode(c.v)
+      [] c.k = "ver" -> 23 + SCode(c.op) + c.tup[Len(c.tup)]
+      [] c.k = "plat" -> 29 + SCode(c.op) + (IF c.name = "linux" THEN 1 ELSE 0)
+      [] c.k = "not" -> 2 * CondCode(c.c) + 1
+      [] c.k = "and" -> 3 * CondCodeFrom(c.cs, 1) + 31
+      [] c.k = "or" -> 3 * CondCodeFrom(c.cs, 1) + 37
+CondCodeFrom(cs, i) == IF i > Len(cs) THEN 0 ELSE i * CondCode(cs[i]) + CondCodeFrom(cs, i + 1)
+RECURSIVE BodyHashFrom(_, _)
+BodyHashFrom(lines, i) ==
+    IF i > Len(lines) THEN 0
+    ELSE i * (7 * lines[i].ind + KCode(lines[i].k) + CondCode(lines[i].c)) + BodyHashFrom(lines, i + 1)
+Selected(c) == EmitMod = 1 \/ IsProbe(c.lines) \/ BodyHashFrom(c.lines, 1) % EmitMod = EmitRes
+
+EmitDone == (stage = "done" /\ Selected(case)) => PrintT(ToJson(case))
 =============================================================================
